@@ -262,13 +262,28 @@ class _CustomProvider:
         return [("x-api-key", "k1"), ("x-tenant", "t")]
 
 
-PROVIDERS = [None, "", "deep.api.auth.BasicAuthProvider", "harness.c08_wire._CustomProvider"]
+class _FlakyProvider:
+    """Fails on its first `fail_first` calls (e.g. a token endpoint that is briefly down), then answers."""
+    calls = 0
+    fail_first = 1
+
+    def __init__(self, config):
+        self.config = config
+
+    def provide(self):
+        _FlakyProvider.calls += 1
+        if _FlakyProvider.calls <= _FlakyProvider.fail_first:
+            raise RuntimeError("token endpoint unavailable")
+        return [("authorization", "Bearer tok")]
+
+
+PROVIDERS = [None, "", "deep.api.auth.BasicAuthProvider", "harness.c08_wire._CustomProvider", "harness.c08_wire._FlakyProvider"]
 
 
 def auth(pi: int, cred: int, npoll: int, nsend: int) -> str:
     """
     Every poll and every snapshot request carries exactly the metadata supplied by the configured auth provider.
-    PRE: 0 <= pi <= 3 and 0 <= cred <= 3 and 0 <= npoll <= 2 and 0 <= nsend <= 2
+    PRE: 0 <= pi <= 4 and 0 <= cred <= 3 and 0 <= npoll <= 3 and 0 <= nsend <= 3
     POST: _ == ""
     """
     world.begin_path()
@@ -312,17 +327,23 @@ def auth(pi: int, cred: int, npoll: int, nsend: int) -> str:
             seen.append(("send", metadata))
     rp, rs, rt = pp.PollConfigStub, ps.SnapshotServiceStub, pp.time_ns
     pp.PollConfigStub, ps.SnapshotServiceStub, pp.time_ns = PollStub, SendStub, (lambda: 1)
+    _FlakyProvider.calls = 0
+    _FlakyProvider.fail_first = 1 + (cred % 2)
+    failed = 0
     try:
         lp = LongPoll(config, grpc)
         push = PushService(grpc, None)
         for i in range(max(npoll, nsend)):
-            if i < npoll:
-                lp.poll()
-            if i < nsend:
-                push._push_task(build_snapshot(1, 1, 0, 0, 0, 0, 0, 0, -1, 0))
-    except Exception as e:
-        world.reached()
-        return "C08:auth:request-failed:" + type(e).__name__
+            for (do, fn) in ((i < npoll, lp.poll), (i < nsend, lambda: push._push_task(build_snapshot(1, 1, 0, 0, 0, 0, 0, 0, -1, 0)))):
+                if not do:
+                    continue
+                try:
+                    fn()
+                except Exception as e:
+                    if pi != 4:
+                        world.reached()
+                        return "C08:auth:request-failed:" + type(e).__name__
+                    failed += 1      # the provider failed: the request must NOT have been sent without its metadata
     finally:
         pp.PollConfigStub, ps.SnapshotServiceStub, pp.time_ns = rp, rs, rt
     world.reached()
@@ -333,10 +354,14 @@ def auth(pi: int, cred: int, npoll: int, nsend: int) -> str:
             want = [("authorization", "Basic%20" + base64.b64encode((user + ":" + pw).encode("utf-8")).decode("utf-8"))]
         else:
             want = []
-    else:
+    elif pi == 3:
         want = [("x-api-key", "k1"), ("x-tenant", "t")]
-    if len(seen) != npoll + nsend:
+    else:
+        want = [("authorization", "Bearer tok")]
+    if len(seen) != npoll + nsend - failed:
         return "C08:auth:request-count"
+    if pi == 4 and failed != min(_FlakyProvider.fail_first, npoll + nsend):
+        return "C08:auth:provider-failure-not-retried-or-request-sent-anyway"
     for (kind, md) in seen:
         if list(md or []) != want:
             return "C08:auth:%s-request-metadata" % kind
@@ -413,6 +438,6 @@ CONDITIONS = [
          bounds="0-2 frames, 0-3 table entries with 0-2 children, 0-2 watches (good / error, 4 sources), 0-3 attributes over 12 value shapes (scalars, tuples, list, empty), "
                 "optional fields present / absent, numeric fields from boundary pools (incl. 2^31, 2^63-1, tracepoint line -1), every string a distinct token; one string field at a time "
                 "replaced by '', non-ASCII, control characters or a long text; real protobuf classes + serialise/parse round trip"),
-    dict(fn="auth", cubes=["pi == %d" % p for p in range(4)], twins=["reach", "mutant:metadata_only_on_poll@pi == 2"],
-         bounds="4 provider configurations (absent, '', Basic, custom) x 4 credential settings x 0-2 polls x 0-2 sends"),
+    dict(fn="auth", cubes=["pi == %d and npoll == %d" % (p, n) for p in range(5) for n in range(4)], twins=["reach", "mutant:metadata_only_on_poll@pi == 2 and npoll == 1"],
+         bounds="5 provider configurations (absent, '', Basic, custom, one that fails on its first 1-2 calls) x 4 credential settings x 0-3 polls x 0-3 sends"),
 ]
